@@ -1,4 +1,5 @@
 import SLModel.Core.Query
+import SLModel.Lemmas.Lev
 /-!
 # Lemmas/Query — helper lemmas for C07 (core Lean only)
 -/
@@ -473,14 +474,16 @@ theorem groupMatches_eq (c : Ctx) {segs : List Seg} {s : Seg} (hs : s ∈ segs) 
 
 /-- exact groups not subject to fuzzy expansion are complete on every corpus -/
 theorem exact_groupOK (c : Ctx) (segs : List Seg) (g : Group) (he : g.exp = .exact)
-    (hf : g.score = false ∨ c.fuzzy = none) : GroupOK c segs g := by
+    (hf : g.score = false ∨ c.fuzzy = none ∨ ∃ fz, c.fuzzy = some fz ∧ min fz.maxEdits 2 = 0) :
+    GroupOK c segs g := by
   intro f _ s _ t _
   unfold expandField Spec.termOk
   rw [he]
   simp only
-  rcases hf with hf | hf
+  rcases hf with hf | hf | ⟨fz, hfz, hk⟩
   · simp [hf, List.any_eq_true]
   · simp [hf, List.any_eq_true]
+  · cases hsc : g.score <;> simp [hfz, hk, List.any_eq_true]
 
 /-! ## matcher tree against the documented semantics -/
 
@@ -1214,5 +1217,122 @@ theorem rootChain_accept : ∀ (q : Q), q.rootChain = true →
   | .rankFeature _, h, hg => plain_accept c hs hd _ (by simpa [Q.rootChain] using h) hg
 
 end RootChain
+
+/-! ## fuzzy expansion below `fuzzy.max_expansions` -/
+
+theorem candFold_mem (M : Str → Bool) (f : Str) :
+    ∀ (L : List Seg) (seen : List Str) (t : Str),
+      (t ∈ L.foldl (fun seen s => seen ++ (segTerms s f).filter (fun t => M t && !seen.contains t)) seen ↔
+        t ∈ seen ∨ ∃ s ∈ L, t ∈ segTerms s f ∧ M t = true)
+  | [], seen, t => by simp
+  | s :: L, seen, t => by
+    rw [List.foldl_cons, candFold_mem M f L _ t, List.mem_append, List.mem_filter]
+    constructor
+    · rintro ((h1 | ⟨h1, h2⟩) | ⟨x, hx, h1⟩)
+      · exact Or.inl h1
+      · simp only [Bool.and_eq_true] at h2
+        exact Or.inr ⟨s, by simp, h1, h2.1⟩
+      · exact Or.inr ⟨x, List.mem_cons_of_mem _ hx, h1⟩
+    · rintro (h1 | ⟨x, hx, h1, h2⟩)
+      · exact Or.inl (Or.inl h1)
+      · rcases List.mem_cons.mp hx with rfl | hx
+        · by_cases hs : t ∈ seen
+          · exact Or.inl (Or.inl hs)
+          · exact Or.inl (Or.inr ⟨h1, by simp [h2, hs]⟩)
+        · exact Or.inr ⟨x, hx, h1, h2⟩
+
+theorem fuzzyCond_eq (fz : Fuzzy) (tok t : Str) :
+    fuzzyCond fz tok t =
+      (!t.isEmpty && isPrefix (tok.take (min fz.prefixLength tok.length)) t && t != tok &&
+        decide (Spec.lev tok t ≤ min fz.maxEdits 2)) := by
+  unfold fuzzyCond
+  cases hne : (t != tok) with
+  | false => simp
+  | true =>
+    congr 1
+    rw [levenshtein_bounded_correct]
+    have hne' : t ≠ tok := by simpa using hne
+    by_cases hle : Spec.lev tok t ≤ min fz.maxEdits 2
+    · rw [if_pos hle]
+      have h0 : Spec.lev tok t ≠ 0 := fun h0 => hne' (lev_eq_zero h0).symm
+      simp [hle, h0]
+    · rw [if_neg hle]
+      simp [hle]
+
+theorem mem_fuzzyCands (segs : List Seg) (f tok : Str) (fz : Fuzzy) (t : Str) :
+    t ∈ fuzzyCands segs f tok fz ↔
+      ∃ s ∈ segs, t ∈ segTerms s f ∧
+        (!t.isEmpty && isPrefix (tok.take (min fz.prefixLength tok.length)) t && t != tok &&
+          decide (Spec.lev tok t ≤ min fz.maxEdits 2)) = true := by
+  unfold fuzzyCands
+  rw [candFold_mem (fuzzyCond fz tok) f segs [] t]
+  simp only [List.not_mem_nil, false_or, fuzzyCond_eq]
+
+/-- **Fuzzy groups below `fuzzy.max_expansions` are complete**: the terms collected by
+`expand_term_fuzzy` are exactly the dictionary terms within the textbook Levenshtein distance
+(sharing the required prefix), for tokens of at least `min_length` characters. -/
+theorem fuzzy_groupOK (c : Ctx) (segs : List Seg) (g : Group) (he : g.exp = .exact)
+    (hcap : belowCaps c segs g = true) : GroupOK c segs g := by
+  by_cases hsc : g.score = false
+  · exact exact_groupOK c segs g he (Or.inl hsc)
+  have hsc' : g.score = true := by cases h : g.score <;> simp_all
+  cases hfz : c.fuzzy with
+  | none => exact exact_groupOK c segs g he (Or.inr (Or.inl hfz))
+  | some fz =>
+    by_cases hk : min fz.maxEdits 2 = 0
+    · exact exact_groupOK c segs g he (Or.inr (Or.inr ⟨fz, hfz, hk⟩))
+    intro f hf s hs t ht
+    unfold belowCaps at hcap
+    rw [he] at hcap
+    simp only [hfz, hsc', Bool.not_true, Bool.false_or, Bool.or_eq_true, beq_iff_eq, hk, false_or,
+      List.all_eq_true, decide_eq_true_eq] at hcap
+    have hcap' := hcap f hf
+    unfold expandField Spec.termOk
+    rw [he]
+    simp only [hsc', hfz, hk, if_true, if_false, Bool.true_and]
+    rw [mem_dedup, List.mem_flatMap, List.any_eq_true]
+    have hkb : (min fz.maxEdits 2 != 0) = true := by simpa using hk
+    constructor
+    · rintro ⟨tok, htok, hmem⟩
+      refine ⟨tok, htok, ?_⟩
+      unfold expandFuzzy at hmem
+      split at hmem
+      · simp only [List.mem_singleton] at hmem
+        simp [hmem]
+      · rename_i hshort
+        rcases List.mem_cons.mp hmem with h | h
+        · simp [h]
+        · have hin := (mem_fuzzyCands segs f tok fz t).mp (List.mem_of_mem_take h)
+          obtain ⟨_, _, _, hc⟩ := hin
+          simp only [Bool.and_eq_true, Bool.not_eq_true', bne_iff_ne, ne_eq, decide_eq_true_eq] at hc
+          have hlen : fz.minLength ≤ tok.length := by
+            by_cases hl : tok.length < fz.minLength
+            · exact absurd (Or.inl hl) hshort
+            · omega
+          have hmx : fz.maxExpansions ≠ 0 := fun h0 => hshort (Or.inr h0)
+          simp [hkb, Spec.fuzzyOk, hlen, hmx, hc.1.1.1, hc.1.1.2, hc.2]
+    · rintro ⟨tok, htok, hok⟩
+      refine ⟨tok, htok, ?_⟩
+      simp only [Bool.or_eq_true, beq_iff_eq, Bool.and_eq_true] at hok
+      unfold expandFuzzy
+      rcases hok with h | ⟨_, hfo⟩
+      · split <;> simp [h]
+      · unfold Spec.fuzzyOk at hfo
+        simp only [Bool.and_eq_true, decide_eq_true_eq, bne_iff_ne, ne_eq, Bool.not_eq_true'] at hfo
+        obtain ⟨⟨⟨⟨hlen, hmx⟩, hne⟩, hpre⟩, hlev⟩ := hfo
+        have hshort : ¬ (tok.length < fz.minLength ∨ fz.maxExpansions = 0) := by
+          rintro (h | h)
+          · omega
+          · exact hmx h
+        rw [if_neg hshort]
+        by_cases heq : t = tok
+        · simp [heq]
+        · apply List.mem_cons_of_mem
+          have hc := hcap' tok htok
+          rcases hc with (hc | hc) | hc
+          · omega
+          · exact absurd hc hmx
+          · rw [List.take_of_length_le hc]
+            exact (mem_fuzzyCands segs f tok fz t).mpr ⟨s, hs, ht, by simp [hne, hpre, heq, hlev]⟩
 
 end SL.Query
